@@ -1222,6 +1222,30 @@ func (e *Exec) enterLoop(fr *Frame, st *State, hdr *ssa.BasicBlock, ord int, bod
 		// nothing is assumed. Note it.
 		e.sc.uncontracted[fmt.Sprintf("loop %d of %s has no invariant (havoc only)", ord, fr.fn.Name())] = true
 	}
+	// "loop N complete": a structural obligation - every edge that leaves the loop starts at its header
+	if fr.fc != nil {
+		if lbl := fr.fc.Flags[fmt.Sprintf("complete.%d", ord)]; lbl != "" {
+			early := ""
+			for b := range body {
+				if b == hdr {
+					continue
+				}
+				for _, s := range b.Succs {
+					if !body[s] && s != hdr {
+						early = fmt.Sprintf("block %d leaves the loop", b.Index)
+						if len(b.Instrs) > 0 {
+							early += " at " + e.pos(b.Instrs[len(b.Instrs)-1].Pos())
+						}
+					}
+				}
+			}
+			f := "true"
+			if early != "" {
+				f = "false"
+			}
+			e.sc.oblig(st.reach, f, fmt.Sprintf("%s#loop-exit.loop%d.%s", e.unit, ord, lbl), "post", fmt.Sprintf("loop %d is left only when its range is exhausted (no return or break inside the body)%s", ord, map[bool]string{true: ": " + early, false: ""}[early != ""]), e.pos(hdr.Instrs[0].Pos()))
+		}
+	}
 	// havoc set first: the automatic frame invariants range over it
 	fr.loopKeep = nil
 	ws, all := e.writeSet(fr, body)
